@@ -6,6 +6,7 @@ import FrappyProofs.Lemmas.CommTimeout
 import FrappyProofs.Lemmas.CommRet
 import FrappyProofs.Lemmas.CommCallbacks
 import FrappyProofs.Lemmas.CommExchange
+import FrappyProofs.Lemmas.CommProtect
 import FrappyModel.Generated.C16
 /-
 C16 — property theorems (nothing but property theorems and their non-vacuity examples).
@@ -136,6 +137,7 @@ def fails_within_timeout_statement : Prop := ∀ cfg cbs evs, Accepted cfg cbs e
 def state_visible_statement : Prop := ∀ cfg cbs evs, Accepted cfg cbs evs → StateNotOverwritten evs
 def reconnect_rate_limited_all_statement : Prop := ∀ cfg cbs evs, Accepted cfg cbs evs → RateLimitedAll cfg evs
 def callbacks_once_statement : Prop := ∀ cfg cbs evs, Accepted cfg cbs evs → CallbacksOnce cbs evs
+def transaction_protected_statement : Prop := ∀ cfg cbs evs, Accepted cfg cbs evs → TransactionProtected evs
 
 /-- The lock is exclusive, for every accepted run (every schedule of any number of callers, every device): at most one
 caller is inside `with self._lock` (at any depth), and it is the owner. -/
@@ -773,6 +775,265 @@ theorem callbacks_once_partial (s s' : State) (t c n n' : Nat) (rest : List Nat)
 
 
 /-! ## exchanges are atomic; a dropped connection is announced; identification on connect; replies of variable length -/
+
+/-! ## a transaction keeps the connection to itself until its last delay has elapsed -/
+
+/-- Between two sends of one call nobody else touches the connection — for EVERY accepted run (any configuration):
+`multicomm_atomic` for every kind of traffic (send, identification request, flush, recv), not only for sends. -/
+theorem transaction_uninterrupted (cfg : Cfg) (cbs : List Nat) (evs : List TEv) (hacc : Accepted cfg cbs evs) :
+    TransactionUninterrupted evs := by
+  intro i j k c c' hij hjk hsi hsk hnr htj
+  unfold Accepted at hacc
+  cases hex : exec { cfg := cfg, cbsReg := cbs } evs with
+  | none => simp [hex] at hacc
+  | some sf =>
+    have hklt := sendAt_lt_length evs k c hsk
+    obtain ⟨ek, hek⟩ : ∃ ek, evs[k]? = some ek := ⟨evs[k], by simp [hklt]⟩
+    obtain ⟨sk, sk', hpre, hst⟩ := exec_cut _ evs k ek hek sf hex
+    have hi := inv_exec cfg cbs (evs.take k) sk hpre
+    have hp := pinv_exec cfg cbs (evs.take k) sk hpre
+    obtain ⟨conn, n, d, hv⟩ : ∃ conn n d, ek.ev = .send c conn n d := by
+      simp only [sendAt, evAt, hek, Option.map_some] at hsk
+      cases hv : ek.ev <;> simp only [hv] at hsk <;> try (simp at hsk)
+      subst hsk; exact ⟨_, _, _, rfl⟩
+    have hheld : 0 < (sk.callers c).held := by
+      rw [step_caller_form sk ek c (by rw [hv]; rfl)] at hst
+      split at hst
+      · simp at hst
+      · rw [hv] at hst
+        have hp := stale_send_pc _ _ _ _ _ _ _ hst
+        have hk := hi.hk c
+        simp only [heldOk] at hk
+        simp only at hp
+        rw [hp] at hk
+        simp only at hk
+        omega
+    have hlen : (evs.take k).length = k := by simp; omega
+    refine hp.ct c i j c' ?_ ?_ hheld hij ?_
+    · rw [sendAt_take evs k i (by omega)]; exact hsi
+    · intro m h1 h2
+      rw [hlen] at h2
+      rw [evAt_take evs k m h2]
+      exact hnr m h1 h2
+    · rw [trafficAt_take evs k j hjk]; exact htj
+
+/-- The pause after the last command belongs to the transaction — for EVERY accepted run of a communicator without
+identification: let a multicomm call of caller `c` (started at a with requests `reqs`) return its replies at b; if
+ANOTHER caller touches the connection at q (send, flush or recv) after a send of `c` at p, with no send of `c` between p
+and q, then q is at least the delay of the request sent at p after p.  (That request is `reqs[m]`, m = number of sends of
+the call before p.  By `transaction_uninterrupted` p is the LAST send of the call: before that nobody else gets in.) -/
+theorem last_delay_protected_run (cfg : Cfg) (cbs : List Nat) (evs : List TEv) (hacc : Accepted cfg cbs evs) (hid : cfg.ident = [])
+    (c a p q b c' : Nat) (reqs : List Req) (rs : List Bytes) (ha : evAt evs a = some (.call c .multi reqs))
+    (hap : a < p) (hpq : p < q) (hqb : q < b)
+    (hnr : ∀ m, a < m → m < b → isRetOf c (evAt evs m) = false) (hb : evAt evs b = some (.ret c (.ok rs)))
+    (hp : sendAt evs p = some c) (hno : ∀ m, p < m → m < q → sendAt evs m ≠ some c)
+    (hq : trafficAt evs q = some c') (hne : c' ≠ c) :
+    timeAt evs p + (reqs.getD (sendsIn evs c a p).length noReq).delay ≤ timeAt evs q := by
+  unfold Accepted at hacc
+  cases hex : exec { cfg := cfg, cbsReg := cbs } evs with
+  | none => simp [hex] at hacc
+  | some sf =>
+    have hblt : b < evs.length := by
+      false_or_by_contra; rename_i hn
+      rw [evAt_none evs b (by omega)] at hb; simp at hb
+    obtain ⟨eb, heb⟩ : ∃ eb, evs[b]? = some eb := ⟨evs[b], by simp [hblt]⟩
+    have hbv : eb.ev = .ret c (.ok rs) := by simpa [evAt, heb] using hb
+    obtain ⟨sb, sb', hpreb, hstb⟩ := exec_cut _ evs b eb heb sf hex
+    obtain ⟨eq, heq⟩ : ∃ eq, evs[q]? = some eq := ⟨evs[q]'(by omega), by simp⟩
+    obtain ⟨sk, sk', hpre, hst⟩ := exec_cut _ evs q eq heq sf hex
+    have hi := inv_exec cfg cbs (evs.take q) sk hpre
+    have hl := linv_exec cfg cbs (evs.take q) sk hpre
+    have hg := ginv_exec cfg cbs (evs.take q) sk hid hpre
+    have hlen : (evs.take q).length = q := by simp; omega
+    have hclk : sk.clock ≤ eq.t := by
+      unfold step at hst; split at hst
+      · simp at hst
+      · omega
+    have htq : timeAt evs q = eq.t := by simp [timeAt, heq]
+    -- the event at q is traffic of c'
+    have htr : trafficEv eq.ev = some c' := by
+      rw [trafficAt_eq] at hq; simpa [evAt, heq] using hq
+    have hwho := trafficEv_who htr
+    rw [step_caller_form sk eq c' hwho] at hst
+    split at hst
+    · simp at hst
+    · -- c' holds the lock, so c does not: c is through with its requests
+      have hheld' := step_traffic_held _ sk' eq.t c' eq.ev hst (hi.hk c') (by rw [htr]; rfl)
+      have hown := hi.li1 c' hheld'
+      have hheld0 : (sk.callers c).held = 0 := by
+        false_or_by_contra; rename_i hn
+        have := hi.li1 c (by omega)
+        rw [hown] at this; simp at this; exact hne this
+      have hnrq : NoRetAfter (evs.take q) c p := by
+        intro m h1 h2
+        rw [hlen] at h2
+        rw [evAt_take evs q m h2]; exact hnr m (by omega) (by omega)
+      have hdone : (sk.callers c).pc = .done :=
+        hi.b c p (by rw [sendAt_take evs q p hpq]; exact hp) hnrq hheld0
+      -- the call the caller is in is the one at `a`
+      obtain ⟨a', ha'l, hev', hnr', huniq, hcnt, hlast⟩ := hl.l1 c (by rw [hdone]; simp)
+      have haa : a = a' := by
+        apply huniq a
+        · rw [evAt_take evs q a (by omega), ha]; simp [isCallOf]
+        · intro m h1 h2; rw [hlen] at h2; rw [evAt_take evs q m h2]; exact hnr m h1 (by omega)
+      subst haa
+      rw [evAt_take evs q a (by omega), ha] at hev'
+      simp only [Option.some.injEq, Ev.call.injEq, true_and] at hev'
+      obtain ⟨hkind, hreqs⟩ := hev'
+      have hcount : (sk.callers c).sent = (sendsIn evs c a p).length + 1 := by
+        rw [hcnt, hlen, sendsIn_take]
+        have := sendsIn_last evs c a p hap hp (q - (p + 1)) (fun m h1 h2 => hno m h1 (by omega))
+        rw [show p + 1 + (q - (p + 1)) = q by omega] at this
+        rw [this]; simp
+      obtain ⟨p', hap', hp'l, hp's, hp'no, hp't⟩ := hlast (by omega)
+      rw [hlen] at hp'l
+      have hpp : p' = p := by
+        rcases Nat.lt_trichotomy p' p with h | h | h
+        · exact absurd (by rw [sendAt_take evs q p hpq]; exact hp) (hp'no p h (by rw [hlen]; exact hpq))
+        · exact h
+        · rw [sendAt_take evs q p' hp'l] at hp's
+          exact absurd hp's (hno p' h hp'l)
+      subst hpp
+      rw [timeAt_take evs q p' hp'l] at hp't
+      -- the call has not failed: it returns its replies at b, and an error is never forgotten
+      have hfail : (sk.callers c).failed = false := by
+        cases hf : (sk.callers c).failed with
+        | false => rfl
+        | true =>
+          exfalso
+          have hseg := exec_segment _ evs q b (by omega) sk sb hpre hpreb
+          have hsticky := exec_failed_sticky c _ sk sb hseg hf (by rw [hdone]; simp) (by
+            intro e he
+            obtain ⟨m, h1, h2, h3⟩ := mem_segment he
+            have := hnr m (by omega) h2
+            simpa [evAt, h3] using this)
+          rw [step_caller_form sb eb c (by rw [hbv]; rfl)] at hstb
+          split at hstb
+          · simp at hstb
+          · rw [hbv] at hstb
+            have := (step_ret_ok _ sb' eb.t c c rs hstb).2
+            simp only at this
+            rw [hsticky.1] at this; simp at this
+      have hg7 := (hg c).g7 hdone hfail hkind.symm (by omega)
+      unfold lastDelay at hg7
+      rw [← hreqs, hcount] at hg7
+      simp only [Nat.add_sub_cancel] at hg7
+      rw [hp't, htq]; omega
+
+
+/-- A transaction is protected until its last delay has elapsed — the clause in the WINDOW form of the monitor
+(`transactionProtectedB`), for EVERY accepted run of a communicator without identification: `transaction_protected_statement`
+restricted to `cfg.ident = []`.  From `transaction_uninterrupted` (before the last send) and `last_delay_protected_run`
+(after it). -/
+theorem transaction_protected (cfg : Cfg) (cbs : List Nat) (evs : List TEv) (hacc : Accepted cfg cbs evs) (hid : cfg.ident = []) :
+    TransactionProtected evs := by
+  unfold TransactionProtected transactionProtectedB
+  simp only [allBelow, List.all_eq_true, List.mem_range]
+  intro a _
+  cases hev : evAt evs a with
+  | none => rfl
+  | some ev =>
+    cases ev <;> try rfl
+    rename_i c kind reqs
+    cases kind <;> try rfl
+    simp only
+    obtain ⟨hnr, hble, hbret⟩ := spanEnd_spec evs c a
+    rcases sends_spec evs c a (spanEnd evs c a) with ⟨h1, h2⟩ | ⟨p0, pl, h1, h2, hap0, hp0l, hplb, hs0, hsl, hlast⟩
+    · rw [h1, h2]
+    · rw [h1, h2]
+      simp only
+      cases hok : isOkRet (evAt evs (spanEnd evs c a)) with
+      | false => rfl
+      | true =>
+        simp only [Bool.not_true, Bool.false_or, allBetween, List.all_eq_true, List.mem_range, Bool.or_eq_true,
+          Bool.not_eq_eq_eq_not, decide_eq_false_iff_not]
+        intro q hqb
+        by_cases hpq : p0 < q
+        · right
+          cases htr : trafficAt evs q with
+          | none => rfl
+          | some c' =>
+            simp only [Bool.or_eq_true, beq_iff_eq, Bool.and_eq_true, decide_eq_true_eq]
+            by_cases hcc : c' = c
+            · left; exact hcc
+            · right
+              -- the return at b
+              obtain ⟨x, rs, hbev⟩ := isOkRet_some hok
+              have hblt : spanEnd evs c a < evs.length := evAt_lt_of_some hbev
+              have hxc : x = c := by
+                have := (hbret hblt).2
+                rw [hbev] at this
+                simpa [isRetOf] using this
+              subst hxc
+              have hsend_tr : ∀ m, sendAt evs m = some x → trafficAt evs m = some x := by
+                intro m hm
+                simp only [sendAt] at hm
+                cases hevm : evAt evs m with
+                | none => simp [hevm] at hm
+                | some em =>
+                  cases em <;> simp only [hevm] at hm <;> try (simp at hm)
+                  subst hm
+                  simp [trafficAt, hevm]
+              rcases Nat.lt_trichotomy q pl with hlt | heq | hgt
+              · exfalso
+                exact hcc (transaction_uninterrupted cfg cbs evs hacc p0 q pl x c' hpq hlt hs0 hsl
+                  (fun m h3 h4 => hnr m (by omega) (by omega)) htr)
+              · exfalso
+                subst heq
+                have := hsend_tr q hsl
+                rw [htr] at this
+                simp only [Option.some.injEq] at this
+                exact hcc this
+              · refine ⟨hgt, ?_⟩
+                exact last_delay_protected_run cfg cbs evs hacc hid x a pl q (spanEnd evs x a) c' reqs rs hev
+                  (by omega) hgt hqb hnr hbev hsl (fun m h3 h4 => hlast m h3 (by omega)) htr hcc
+        · left; exact hpq
+
+
+/-- `atomicRun` with caller 2 getting the lock as soon as the multicomm of caller 1 has given it back — after the pause
+of 0.2 s that follows the last command — and before that call returns -/
+def protectedRun : List TEv := [
+  ⟨5000000, .call 1 .multi [⟨[65, 10], true, 0, 0⟩, ⟨[87, 10], false, 0, 200000⟩]⟩, ⟨5000000, .acq 1⟩, ⟨5000000, .chk 1 false⟩,
+  ⟨5000001, .now 1 5000001⟩, ⟨5000002, .now 1 5000002⟩, ⟨5000002, .connect 1 true true⟩, ⟨5000003, .isconn 1 true⟩,
+  ⟨5000003, .acq 1⟩, ⟨5000003, .flush 1⟩, ⟨5000003, .send 1 0 0 [65, 10]⟩,
+  ⟨5000004, .call 2 .comm [⟨[68, 10], true, 0, 0⟩]⟩, ⟨5000004, .chk 2 true⟩,
+  ⟨5100000, .arrive 0 (some 0) [97, 10]⟩, ⟨5100000, .recv 1 (.data [97, 10])⟩, ⟨5100000, .rel 1⟩,
+  ⟨5100000, .chk 1 true⟩, ⟨5100000, .acq 1⟩, ⟨5100000, .flush 1⟩, ⟨5100000, .send 1 0 1 [87, 10]⟩, ⟨5100000, .rel 1⟩,
+  ⟨5100000, .slp 1 200000⟩, ⟨5300000, .wake 1⟩, ⟨5300000, .rel 1⟩,
+  ⟨5300000, .acq 2⟩, ⟨5300000, .flush 2⟩, ⟨5300000, .send 2 0 2 [68, 10]⟩, ⟨5300000, .ret 1 (.ok [[97]])⟩,
+  ⟨5400000, .arrive 0 (some 2) [100, 10]⟩, ⟨5400000, .recv 2 (.data [100, 10])⟩, ⟨5400000, .rel 2⟩, ⟨5400000, .ret 2 (.ok [[100]])⟩]
+
+/-- what the clause forbids (and the model does not accept): the lock is given back BEFORE the pause after the last
+command is slept; caller 2 sends 1 µs after the last command of the transaction.  The caller of the multicomm notices
+nothing: it returns late enough (`delaysHonouredB`), and no send lies between its sends (`multicommAtomicB`). -/
+def unprotectedRun : List TEv := [
+  ⟨5000000, .call 1 .multi [⟨[65, 10], true, 0, 0⟩, ⟨[87, 10], false, 0, 200000⟩]⟩, ⟨5000000, .acq 1⟩, ⟨5000000, .chk 1 false⟩,
+  ⟨5000001, .now 1 5000001⟩, ⟨5000002, .now 1 5000002⟩, ⟨5000002, .connect 1 true true⟩, ⟨5000003, .isconn 1 true⟩,
+  ⟨5000003, .acq 1⟩, ⟨5000003, .flush 1⟩, ⟨5000003, .send 1 0 0 [65, 10]⟩,
+  ⟨5000004, .call 2 .comm [⟨[68, 10], true, 0, 0⟩]⟩, ⟨5000004, .chk 2 true⟩,
+  ⟨5100000, .arrive 0 (some 0) [97, 10]⟩, ⟨5100000, .recv 1 (.data [97, 10])⟩, ⟨5100000, .rel 1⟩,
+  ⟨5100000, .chk 1 true⟩, ⟨5100000, .acq 1⟩, ⟨5100000, .flush 1⟩, ⟨5100000, .send 1 0 1 [87, 10]⟩, ⟨5100000, .rel 1⟩,
+  ⟨5100000, .rel 1⟩, ⟨5100000, .slp 1 200000⟩,
+  ⟨5100001, .acq 2⟩, ⟨5100001, .flush 2⟩, ⟨5100001, .send 2 0 2 [68, 10]⟩,
+  ⟨5200000, .arrive 0 (some 2) [100, 10]⟩, ⟨5200000, .recv 2 (.data [100, 10])⟩, ⟨5200000, .rel 2⟩, ⟨5200000, .ret 2 (.ok [[100]])⟩,
+  ⟨5300000, .wake 1⟩, ⟨5300000, .ret 1 (.ok [[97]])⟩]
+
+-- non-vacuity of `transaction_uninterrupted`, `last_delay_protected_run`, `transaction_protected`: the multicomm of caller 1
+-- in `protectedRun` (call at 0, sends at 9 and 18, return at 26); caller 2 touches the connection at 24 and 25, inside the
+-- span of the call, 0.2 s after the last send
+example : Accepted findingCfgA [] protectedRun ∧ findingCfgA.ident = [] ∧
+    evAt protectedRun 0 = some (.call 1 .multi [⟨[65, 10], true, 0, 0⟩, ⟨[87, 10], false, 0, 200000⟩]) ∧
+    sendAt protectedRun 9 = some 1 ∧ sendAt protectedRun 18 = some 1 ∧ trafficAt protectedRun 13 = some 1 ∧
+    trafficAt protectedRun 24 = some 2 ∧ trafficAt protectedRun 25 = some 2 ∧ spanEnd protectedRun 1 0 = 26 ∧
+    evAt protectedRun 26 = some (.ret 1 (.ok [[97]])) ∧ (sendsIn protectedRun 1 0 18).length = 1 ∧
+    firstSendIn protectedRun 1 0 26 = some 9 ∧ lastSendIn protectedRun 1 0 26 = some 18 ∧
+    timeAt protectedRun 18 + 200000 ≤ timeAt protectedRun 24 ∧ transactionProtectedB protectedRun = true := by
+  unfold Accepted; decide
+-- the monitor tells the two apart; the other two transaction clauses do not
+example : transactionProtectedB unprotectedRun = false ∧ delaysHonouredB unprotectedRun = true ∧
+    multicommAtomicB unprotectedRun = true ∧ ¬ Accepted findingCfgA [] unprotectedRun := by
+  unfold Accepted; decide
+
 
 /-- An exchange is never interleaved with other traffic — for EVERY accepted run (identification, replies of variable
 length and any number of callers included): between the send of a command (or of an identification request) by caller
